@@ -11,6 +11,7 @@
 #include "common.h"
 #include "ascon_ref.h"
 #include <ascon/random.h>
+#include "random/ascon-trng.h"
 #include <errno.h>
 #include <sys/types.h>
 
@@ -350,6 +351,28 @@ static void case_misc(uint64_t idx)
         if (ascon_random_init(0) != 0 || ascon_random_reseed(0) != 0) vf_violation("C15", "prng:status:null-state-init", "\"x\":0");
         ascon_random_free(&st);
         ascon_random_free(0);
+    }
+    /* the internal TRNG toolkit (real mixer) on an exactly-sized object: memory safety + determinism under the tape */
+    {
+        ascon_trng_state_t *t1 = (ascon_trng_state_t *)galloc(sizeof(*t1), 1), *t2 = (ascon_trng_state_t *)galloc(sizeof(*t2), 0);
+        uint8_t *sb = (uint8_t *)galloc(n, 1);
+        int ok1, ok2;
+        gr_logical = 0; gr_fail_mask = 0; gr_eintr_mask = 0;
+        ok1 = ascon_trng_init(t1);
+        gr_logical = 0;
+        ok2 = ascon_trng_init(t2);
+        if (!ok1 || !ok2) vf_violation("C15", "trng:init-status", "\"ok\":%d", ok1);
+        for (int k = 0; k < 40; ++k) {
+            int w = (int)rng_below(R, 3);
+            if (w == 0) { if (ascon_trng_generate_32(t1) != ascon_trng_generate_32(t2)) vf_violation("C15", "trng:determinism:generate_32", "\"k\":%d", k); }
+            else if (w == 1) { if (ascon_trng_generate_64(t1) != ascon_trng_generate_64(t2)) vf_violation("C15", "trng:determinism:generate_64", "\"k\":%d", k); }
+            else { long c = gr_logical; ascon_trng_reseed(t1); gr_logical = c; ascon_trng_reseed(t2); }
+            vf_count("trng_toolkit_calls", 2);
+        }
+        gr_logical = 0;
+        ascon_trng_generate(sb, n);
+        ascon_trng_free(t1); ascon_trng_free(t2);
+        gfree(t1); gfree(t2); gfree(sb);
     }
     vf_distinct("misc|n%zu", n);
     gfree(o1); gfree(o2);
